@@ -175,3 +175,60 @@ def det_worker(args):
     finally:
         shutil.rmtree(workdir, ignore_errors=True)
     return res
+
+
+def stiff_worker(args):
+    """a stiff instance (van der Pol, large mu, a long gap before the requested times): explicit and non-stiff methods
+    cannot finish the interval within their step budget.  The call may REFUSE (raise the documented IntegrationError);
+    if it returns, the rows must be the solution (reference: Radau on the specification's right-hand side)."""
+    from harness import record_det as rd
+    from pygom import common_models
+    from pygom.model import ode_utils
+    mu, seed = args
+    res = {"idx": "stiff-mu%g" % mu, "name": "vanDerPol(mu=%g)" % mu, "findings": [], "rejected": [], "accepted": 0, "calls": 0,
+           "states": 0, "steps": 0, "configs": [], "maxerr": 0.0, "refused": 0}
+    entry = next(e for e in catalogue.models() if e["name"] == "vanDerPol")
+    defn = entry["defn"]
+    sy = defn.sy
+    workdir = tlc.scratch_dir("tr_stiff_")
+    try:
+        odes = [{"kind": "ode", "st": p["st"], "eqn": p["eqn"]} for p in defn.procs]
+        out, _ = spec_ode(defn, [], odes, workdir, "stiff", want=["jac"])
+        ode_polys = [codec.P(t) for t in out["ode"]]
+        jac_polys = [[codec.P(t) for t in row] for row in out["jac"]]
+        theta = [float(mu)]
+        x0 = [2.0, 0.0]
+        m = common_models.vanDerPol([float(mu)])
+        m._SC = ode_utils.compileCode(backend="lambda")
+        grid = np.array([0.0, 1.5 * mu, 1.6 * mu])
+        rhs = refnum.rhs_from_spec(sy, ode_polys, theta)
+        ref = refnum.solve(rhs, x0, grid, method="Radau", rtol=1e-10, atol=1e-12)
+        v0 = x0 + [0.0] + theta
+        f_ref = np.array(refnum.compile_polys(sy, ode_polys)(v0), float)
+        J_ref = refnum.mat_from_spec(sy, jac_polys)(v0)
+        traces, meta = [], []
+        for entry_name, method in [("integrate2", mth) for mth in rd.METHODS] + [("integrateFuncJac", mth) for mth in rd.METHODS]:
+            sol, snaps, err = rd.perform_call(m, entry_name, method, False, True, x0, grid)
+            res["calls"] += 1
+            cfgname = "%s/%s/full=False/origin=True/stiff" % (entry_name, method)
+            res["configs"].append(cfgname)
+            setup = rd.judge_setup(rd.perform_call.last_setup, f_ref, J_ref)
+            if err:
+                if "IntegrationError" in err:
+                    res["refused"] += 1
+                    tr = rd.to_call_trace(entry_name, method, False, True, ref, np.zeros((0, 2)), snaps, False, 1e-5, setup=setup)
+                    tr["events"] = [e for e in tr["events"] if e["ev"] != "Return"] + [{"ev": "Refuse"}]
+                    traces.append(tr)
+                    meta.append({"config": cfgname, "grid": grid.tolist()})
+                else:
+                    res["findings"].append({"what": "deterministic entry point raised", "detail": err, "config": cfgname, "shape": "stiff"})
+                continue
+            sol = np.asarray(sol, float).reshape(np.asarray(sol).shape[0], -1)
+            traces.append(rd.to_call_trace(entry_name, method, False, True, ref, sol, snaps, False, 1e-5, setup=setup))
+            meta.append({"config": cfgname, "grid": grid.tolist()})
+        accepted, rejected, states = validate_calls(traces, meta, workdir, "stiff")
+        res["accepted"], res["rejected"], res["states"] = accepted, rejected, states
+        res["steps"] = sum(len(t["events"]) for t in traces)
+    finally:
+        shutil.rmtree(workdir, ignore_errors=True)
+    return res
